@@ -10,6 +10,7 @@ import (
 	"strings"
 	"sync"
 
+	jlib "github.com/jsightapi/jsight-schema-go-library"
 	jdoc "github.com/jsightapi/jsight-schema-go-library/formats/json"
 	"github.com/jsightapi/jsight-schema-go-library/notations/jschema"
 
@@ -41,13 +42,33 @@ var kinds = []string{"i", "f", "s", "b", "n"}
 
 // decoded key names: the Lean side sees the atom k<index>; the texts spell the name with a random mix of raw bytes,
 // short escapes and \uXXXX escapes (the property: keys are compared after decoding)
-var keyPool = []string{"a", "b", "c", "d", "zz", "a\"b", "a\\b", "line\nbreak", "tab\t", "\u00e9t\u00e9", "sl/ash", " ", "A", "\U0001F600k", "a\u0001"}
+var keyPool = []string{"a", "b", "c", "d", "zz", "a\"b", "a\\b", "line\nbreak", "tab\t", "\u00e9t\u00e9", "sl/ash", " ", "A", "\U0001F600k", "a\u0001",
+	// DEGENERATE names (from degFirst on): a property name is an arbitrary JSON string. The empty string; strings that
+	// consist of ONE character which the scanners treat specially (quote, backslash, NUL, slash, apostrophe, DEL, the
+	// last control character); names that read like another token of the schema language or of JSON (a number, a
+	// literal, punctuation, a comment opener, an annotation, a rule name, a type reference); names that differ from
+	// another name of the pool only by case, by a trailing blank or by a NUL
+	"", "\"", "\\", "\u0000", "/", "'", "\u007f", "\u001f", "0", "-1.5", "null", "true", ":", ",", "{", "}", "[]", "//", "#", "/*",
+	"// {optional: true}", "optional", "@a", "a ", "a\u0000", "B", "\\u0061", "\\\"", "  "}
+
+// degFirst: index of the first degenerate name
+const degFirst = 15
 
 // the first nBase names are the pool of the random generator; the names after them (w000, w001, …) exist only for the
 // WIDE stream (objects with many properties)
-const nBase = 15
+const nBase = 44
 
 func init() {
+	if len(keyPool) != nBase {
+		panic(fmt.Sprintf("generator: key pool has %d names, nBase = %d", len(keyPool), nBase))
+	}
+	seen := map[string]bool{}
+	for _, k := range keyPool {
+		if seen[k] {
+			panic(fmt.Sprintf("generator: name %q twice in the key pool", k))
+		}
+		seen[k] = true
+	}
 	for i := 0; i < 600; i++ {
 		keyPool = append(keyPool, fmt.Sprintf("w%03d", i))
 	}
@@ -120,8 +141,14 @@ func genNode(r *rand.Rand, depth int) *node {
 		n.nulFalse = !n.nullable && r.Intn(6) == 0
 		cnt := r.Intn(4)
 		perm := r.Perm(nBase)
-		if r.Intn(2) == 0 { // plain names most of the time
+		switch r.Intn(4) {
+		case 0, 1: // plain names half of the time
 			perm = r.Perm(4)
+		case 2: // degenerate names only
+			perm = r.Perm(nBase - degFirst)
+			for i := range perm {
+				perm[i] += degFirst
+			}
 		}
 		for i := 0; i < cnt; i++ {
 			n.props = append(n.props, &prop{key: perm[i], mark: r.Intn(3), val: genNode(r, depth-1)})
@@ -547,7 +574,11 @@ func randomDoc(r *rand.Rand, depth int) *doc {
 	default:
 		d := &doc{kind: "o"}
 		for i := r.Intn(3); i > 0; i-- {
-			d.keys = append(d.keys, r.Intn(5))
+			k := r.Intn(5)
+			if r.Intn(4) == 0 {
+				k = r.Intn(nBase)
+			}
+			d.keys = append(d.keys, k)
 			d.items = append(d.items, randomDoc(r, depth-1))
 		}
 		return d
@@ -582,6 +613,182 @@ func render(d *doc, r *rand.Rand) (string, string) {
 		}
 		return "{" + strings.Join(parts, ",") + "}", sb.String() + ")"
 	}
+}
+
+// ---- document HISTORY. The verdict is a function of the schema and of the document TEXT; the document OBJECT handed
+// to Validate may have been used before. What the caller may have done with it (formats/json: Document):
+//   - created it with or without AllowTrailingNonSpaceCharacters (with the option the text may go on after the top-level
+//     value: the document is the leading value, whatever follows it);
+//   - asked Check() and Len(), in any order and number;
+//   - read it: some NextLexeme() calls, a Validate against another schema or against the same schema (Validate reads
+//     the document through NextLexeme and stops where it fails).
+// Reading (the one the unchanged tree satisfies, and the one the library states at Check / Len: "we should rewind here
+// in case we call NextLexeme method"): a document is a one-pass reader, Check() and Len() start from the beginning
+// whatever has been read so far and leave the document at the beginning; both are memoised, so only the FIRST call of
+// each reads anything. Hence the histories after which Validate must give the verdict of a fresh document are those
+// in which every read is followed by a first call of Check() or of Len(): the generator draws operations at random and
+// allows a read only while one of the two is still unused. A document that has been read and not reset this way (a
+// second Validate of the same object, NextLexeme calls directly before Validate) is not required to give the
+// verdict of the text, and is not generated.
+type histOp struct {
+	kind  string // next check len self other
+	n     int    // next: number of calls; other: index into otherSchemas
+	clean bool   // self: the document is at the beginning when the operation runs
+}
+
+// schemas a document may have been validated against before: accepting everything, rejecting at the first lexeme,
+// rejecting somewhere inside
+var otherSchemas = []string{"1 // {type: \"any\"}", "[]", "{}", "null", "[\n  [\n    1 // {type: \"any\"}\n  ]\n]", "{\n  \"a\": 1 // {type: \"any\"}\n}"}
+var otherCompiled []*jschema.Schema
+
+// trailing text after the top-level value (only under AllowTrailingNonSpaceCharacters)
+var trailers = []string{" x", "\n}", " ]", "\t1", " {\"a\": 1}", "\n// {optional: true}", " ,", " \"", "\r\n[", "  nul"}
+
+func genHistory(r *rand.Rand) []histOp {
+	var ops []histOp
+	usedC, usedL, dirty := false, false, false
+	for i := 1 + r.Intn(5); i > 0; i-- {
+		k := r.Intn(7)
+		if k >= 4 && usedC && usedL {
+			k = r.Intn(4) // nothing left to reset a read
+		}
+		switch {
+		case k <= 1:
+			ops = append(ops, histOp{kind: "check"})
+			if !usedC {
+				usedC, dirty = true, false
+			}
+		case k <= 3:
+			ops = append(ops, histOp{kind: "len"})
+			if !usedL {
+				usedL, dirty = true, false
+			}
+		case k == 4:
+			n := 1 + r.Intn(4)
+			if r.Intn(5) == 0 {
+				n = 10 + r.Intn(2000) // often past the end
+			}
+			ops = append(ops, histOp{kind: "next", n: n})
+			dirty = true
+		case k == 5:
+			ops = append(ops, histOp{kind: "self", clean: !dirty})
+			dirty = true
+		default:
+			ops = append(ops, histOp{kind: "other", n: r.Intn(len(otherSchemas))})
+			dirty = true
+		}
+	}
+	if dirty {
+		c := usedL || (!usedC && r.Intn(2) == 0)
+		if c {
+			ops = append(ops, histOp{kind: "check"})
+		} else {
+			ops = append(ops, histOp{kind: "len"})
+		}
+		if r.Intn(3) == 0 { // and memoised calls after it
+			ops = append(ops, histOp{kind: []string{"check", "len"}[r.Intn(2)]})
+		}
+	}
+	return ops
+}
+
+type usage struct {
+	allow   bool
+	trailer string
+	ops     []histOp
+}
+
+func genUsage(r *rand.Rand) usage {
+	var u usage
+	if r.Intn(3) == 0 {
+		u.allow = true
+		if r.Intn(2) == 0 {
+			u.trailer = trailers[r.Intn(len(trailers))]
+		}
+	}
+	if r.Intn(2) == 0 {
+		u.ops = genHistory(r)
+	}
+	return u
+}
+
+// describe: the usage as Go-like text, for the Input of a diff ("" for a fresh document without options)
+func (u usage) describe() string {
+	if !u.allow && len(u.ops) == 0 {
+		return ""
+	}
+	var parts []string
+	if u.allow {
+		parts = append(parts, fmt.Sprintf("d := json.New(document + %q, json.AllowTrailingNonSpaceCharacters())", u.trailer))
+	} else {
+		parts = append(parts, "d := json.New(document)")
+	}
+	for _, o := range u.ops {
+		switch o.kind {
+		case "check":
+			parts = append(parts, "d.Check()")
+		case "len":
+			parts = append(parts, "d.Len()")
+		case "next":
+			parts = append(parts, fmt.Sprintf("%d x d.NextLexeme()", o.n))
+		case "self":
+			parts = append(parts, "schema.Validate(d)")
+		case "other":
+			parts = append(parts, fmt.Sprintf("jschema.New(%q).Validate(d)", otherSchemas[o.n]))
+		}
+	}
+	return " usage=[" + strings.Join(parts, "; ") + "; verdict of schema.Validate(d)]"
+}
+
+func verdictOf(s *jschema.Schema, d jlib.Document) string {
+	return vh.Recover(func() string {
+		if err := s.Validate(d); err != nil {
+			return "000"
+		}
+		return "111"
+	})
+}
+
+// validate: the verdict of Validate on a document object with the given usage; `early` lists the verdicts of the
+// Validate calls of the history that met the document at its beginning (they must be the verdict of the text as well)
+func (u usage) validate(s *jschema.Schema, text string, rep *vh.Report) (verdict string, early []string) {
+	var d jlib.Document
+	if u.allow {
+		d = jdoc.New("d", text+u.trailer, jdoc.AllowTrailingNonSpaceCharacters())
+		rep.Stat("doc_allow_trailing")
+		if u.trailer != "" {
+			rep.Stat("doc_with_trailer")
+		}
+	} else {
+		d = jdoc.New("d", text)
+	}
+	if len(u.ops) > 0 {
+		rep.Stat("doc_with_history")
+	}
+	for _, o := range u.ops {
+		rep.Stat("history_" + o.kind)
+		switch o.kind {
+		case "check":
+			vh.Recover(func() string { _ = d.Check(); return "" })
+		case "len":
+			vh.Recover(func() string { _, _ = d.Len(); return "" })
+		case "next":
+			vh.Recover(func() string {
+				for i := 0; i < o.n; i++ {
+					_, _ = d.NextLexeme()
+				}
+				return ""
+			})
+		case "self":
+			v := verdictOf(s, d)
+			if o.clean {
+				early = append(early, v)
+			}
+		case "other":
+			verdictOf(otherCompiled[o.n], d)
+		}
+	}
+	return verdictOf(s, d), early
 }
 
 var strRe = regexp.MustCompile(`"(\\.|[^"\\])*"`)
@@ -749,6 +956,7 @@ type wideCase struct {
 	n          *node
 	docs       []*doc
 	optDefault bool
+	stream     string // "" = wide
 }
 
 func wideCases(r *rand.Rand) []wideCase {
@@ -760,24 +968,87 @@ func wideCases(r *rand.Rand) []wideCase {
 					continue // nothing required: covered by marks 1 / 2
 				}
 				o := wideObject(r, w, marks)
-				out = append(out, wideCase{o, wideDocs(r, o), optDefault})
+				out = append(out, wideCase{n: o, docs: wideDocs(r, o), optDefault: optDefault})
 				// the same object as the only element of an array, and as a property value
 				wrapA := &node{kind: "arr", items: []*node{o}}
 				var da []*doc
 				for _, d := range wideDocs(r, o) {
 					da = append(da, &doc{kind: "a", items: []*doc{d, d}})
 				}
-				out = append(out, wideCase{wrapA, da, optDefault})
+				out = append(out, wideCase{n: wrapA, docs: da, optDefault: optDefault})
 			}
 		}
 		a := wideArray(r, w)
-		out = append(out, wideCase{a, wideDocs(r, a), false})
+		out = append(out, wideCase{n: a, docs: wideDocs(r, a), optDefault: false})
 		wrapO := &node{kind: "obj", props: []*prop{{key: 0, mark: 0, val: a}}}
 		var do []*doc
 		for _, d := range wideDocs(r, a) {
 			do = append(do, &doc{kind: "o", keys: []int{0}, items: []*doc{d}})
 		}
-		out = append(out, wideCase{wrapO, do, false})
+		out = append(out, wideCase{n: wrapO, docs: do, optDefault: false})
+	}
+	return out
+}
+
+// ---- KEY-NAME stream: "every non-optional example key present and no key absent from the example" holds for EVERY
+// property name, and a name plays no part in the verdict beyond being equal or different to another name. For every
+// name of the pool x unmarked / optional: true / optional: false x both key-optionality configurations x four
+// placements (root object; value of a property; element of an array; below a property of the same name and an array,
+// depth 4): an object with that property and one more, and the documents full / properties swapped / the property
+// missing / the other one missing / empty object / a third name added / only the third name / the property twice /
+// wrong kind under the property.
+func keyCases(r *rand.Rand) []wideCase {
+	var out []wideCase
+	for k := 0; k < nBase; k++ {
+		for mark := 0; mark < 3; mark++ {
+			for _, optDefault := range []bool{false, true} {
+				for place := 0; place < 4; place++ {
+					k2 := (k + 1 + r.Intn(nBase-1)) % nBase
+					k3 := r.Intn(nBase)
+					for k3 == k || k3 == k2 {
+						k3 = r.Intn(nBase)
+					}
+					l1, l2 := kinds[r.Intn(4)], kinds[r.Intn(4)]
+					obj := &node{kind: "obj", props: []*prop{{key: k, mark: mark, val: &node{kind: "lit", lit: l1}}, {key: k2, mark: r.Intn(3), val: &node{kind: "lit", lit: l2}}}}
+					if r.Intn(2) == 0 {
+						obj.props[0], obj.props[1] = obj.props[1], obj.props[0]
+					}
+					v1, v2, v3 := &doc{kind: "l", lit: l1}, &doc{kind: "l", lit: l2}, &doc{kind: "l", lit: kinds[r.Intn(5)]}
+					o := func(keys []int, items ...*doc) *doc { return &doc{kind: "o", keys: keys, items: items} }
+					docs := []*doc{
+						o([]int{k, k2}, v1, v2),
+						o([]int{k2, k}, v2, v1),
+						o([]int{k2}, v2),
+						o([]int{k}, v1),
+						o(nil),
+						o([]int{k, k3, k2}, v1, v3, v2),
+						o([]int{k3}, v3),
+						o([]int{k, k2, k}, v1, v2, v1),
+						o([]int{k2, k}, v2, &doc{kind: "l", lit: otherKind(l1)}),
+					}
+					n := obj
+					switch place {
+					case 1:
+						n = &node{kind: "obj", props: []*prop{{key: 1, mark: 0, val: obj}}}
+						for i, d := range docs {
+							docs[i] = o([]int{1}, d)
+						}
+					case 2:
+						n = &node{kind: "arr", items: []*node{obj}}
+						first := docs[0]
+						for i, d := range docs {
+							docs[i] = &doc{kind: "a", items: []*doc{first, d}}
+						}
+					case 3:
+						n = &node{kind: "obj", props: []*prop{{key: k, mark: 2, val: &node{kind: "arr", items: []*node{{kind: "obj", props: []*prop{{key: k, mark: 2, val: obj}}}}}}}}
+						for i, d := range docs {
+							docs[i] = o([]int{k}, &doc{kind: "a", items: []*doc{o([]int{k}, d)}})
+						}
+					}
+					out = append(out, wideCase{n: n, docs: docs, optDefault: optDefault, stream: "keyname"})
+				}
+			}
+		}
 	}
 	return out
 }
@@ -798,10 +1069,19 @@ func depthOf(n *node) int {
 }
 
 func Run(args []string) {
-	rep := vh.NewReport("c01-shape", "schemas of the rule-free fragment (scalars of 5 kinds, type any, arrays <=3, objects <=3 props with unmarked / optional:true / optional:false keys, nullable on scalars, containers and type-any nodes (also written out as nullable: false), type any over scalar and empty-container examples, rules in random order, key names from a pool of 15 decoded names incl. quotes, backslashes, control characters, non-ASCII and astral characters spelled in schema and document with random raw / short / \\uXXXX escapes, depth <= 5) x KeysAreOptionalByDefault on/off x documents (sampled inhabitants incl. int-for-float, null for nullable, extended arrays; mutated: dropped / added / repeated / reordered keys, kind swaps; unrelated); every scalar spelled afresh at each occurrence: document numerals over the RFC 8259 numeral space (minus also on zero, up to 27 digits, zeros appended to the fraction, exponent e / E with sign absent / + / - and zero-padded digits, -5..5, sometimes +-40, rarely +-400, decimal point moved: 25 = 2.5E+1 = 25e0 = 250E-1 = 0.25e2 = 25.0e0; integral values with a plain fraction 1.0 / -0.00; never a zero integer part directly followed by an exponent, K-C10-zeroexp), their kind i / f computed from the TEXT by exact decimal arithmetic (plain fraction without exponent = float, otherwise integer iff the value is integral); example numerals without exponent (schema language), long integers, -0, fractions with trailing / all zeros; strings from a pool of 43 decoded values (empty, every short-escape character, control characters, non-ASCII, astral, contents that read like numbers / true / null / containers / annotations / comments / type names) spelled with raw bytes / every short escape (quote, backslash, slash, b, f, n, r, t) / \\uXXXX escapes in schema and document; real Validate verdict vs Lean VN.validateT, VN.validate and spec VN.shape; nontrivial = schema of depth >= 2")
+	rep := vh.NewReport("c01-shape", "schemas of the rule-free fragment (scalars of 5 kinds, type any, arrays <=3, objects <=3 props with unmarked / optional:true / optional:false keys, nullable on scalars, containers and type-any nodes (also written out as nullable: false), type any over scalar and empty-container examples, rules in random order, key names from a pool of 44 decoded names incl. quotes, backslashes, control characters, non-ASCII and astral characters and 29 degenerate names (the EMPTY name, a lone quote / backslash / NUL / slash / apostrophe / DEL, names reading like numbers, literals, punctuation, comment openers, annotations, rule names, type references, names differing by case / trailing blank / NUL only; one object in four draws from the degenerate names alone) spelled in schema and document with random raw / short / \\uXXXX escapes, depth <= 5) x KeysAreOptionalByDefault on/off x documents (sampled inhabitants incl. int-for-float, null for nullable, extended arrays; mutated: dropped / added / repeated / reordered keys, kind swaps; unrelated); every scalar spelled afresh at each occurrence: document numerals over the RFC 8259 numeral space (minus also on zero, up to 27 digits, zeros appended to the fraction, exponent e / E with sign absent / + / - and zero-padded digits, -5..5, sometimes +-40, rarely +-400, decimal point moved: 25 = 2.5E+1 = 25e0 = 250E-1 = 0.25e2 = 25.0e0; integral values with a plain fraction 1.0 / -0.00; never a zero integer part directly followed by an exponent, K-C10-zeroexp), their kind i / f computed from the TEXT by exact decimal arithmetic (plain fraction without exponent = float, otherwise integer iff the value is integral); example numerals without exponent (schema language), long integers, -0, fractions with trailing / all zeros; strings from a pool of 43 decoded values (empty, every short-escape character, control characters, non-ASCII, astral, contents that read like numbers / true / null / containers / annotations / comments / type names) spelled with raw bytes / every short escape (quote, backslash, slash, b, f, n, r, t) / \\uXXXX escapes in schema and document; a KEY-NAME stream: every name of the pool x unmarked / optional: true / optional: false x both configurations x 4 placements (root, property value, array element, depth 4 below a property of the same name) with the documents full / swapped / property missing / other property missing / empty / third name added / third name only / property twice / wrong kind; the document OBJECT handed to Validate: one in three created with AllowTrailingNonSpaceCharacters (half of those with text after the top-level value), one in two USED before: 1..5 operations out of Check() / Len() (any order and number) / NextLexeme() calls (1..4, sometimes past the end) / Validate against the same schema / Validate against one of 6 other schemas, every read followed by a first call of Check() or Len() (they start from the beginning and leave the document there); the verdict must be the one of the text, and equal to every earlier Validate of the history that met the document at its beginning; real Validate verdict vs Lean VN.validateT, VN.validate and spec VN.shape; nontrivial = schema of depth >= 2")
 	r := vh.NewRand(101)
+	otherCompiled = nil
+	for _, t := range otherSchemas {
+		o := jschema.New("other", t)
+		if err := o.Check(); err != nil {
+			panic("generator: other schema " + t + ": " + err.Error())
+		}
+		otherCompiled = append(otherCompiled, o)
+	}
 	nSchemas := vh.Pick(12000, 120000)
 	var reqs, impl, inputs []string
+	var late []vh.Diff // reported after the verdict-vs-model diffs, whose inputs are the shorter ones
 	for i := 0; i < nSchemas; i++ {
 		n := genNode(r, 1+r.Intn(5))
 		optDefault := r.Intn(2) == 0
@@ -830,12 +1110,8 @@ func Run(args []string) {
 			mut := []int{0, 0, 0, 10, 10, 25, 25, 50, 100, 100}[j]
 			d := sample(r, n, optDefault, mut)
 			dt, dsx := render(d, r)
-			verdict := vh.Recover(func() string {
-				if err := s.Validate(jdoc.New("d", dt)); err != nil {
-					return "000"
-				}
-				return "111"
-			})
+			u := genUsage(r)
+			verdict, early := u.validate(s, dt, rep)
 			numStats(rep, dt)
 			if verdict == "111" {
 				rep.Stat("accepted")
@@ -845,9 +1121,16 @@ func Run(args []string) {
 			rep.Stat(fmt.Sprintf("mutation_%d", mut))
 			reqs = append(reqs, "semn val "+schemaSx+" "+dsx)
 			impl = append(impl, verdict)
-			in := fmt.Sprintf("schema=%q optDefault=%v document=%q", text, optDefault, dt)
+			in := fmt.Sprintf("schema=%q optDefault=%v document=%q%s", text, optDefault, dt, u.describe())
 			inputs = append(inputs, in)
 			rep.Case(schemaSx+" "+dsx, depthOf(n) >= 2)
+			for _, e := range early {
+				if e != verdict {
+					late = append(late, vh.Diff{Component: "C01-history", Input: in, Impl: "an earlier schema.Validate(d) of the history, on the document at its beginning: " + e + "; the last one: " + verdict,
+						Model: "the verdict is a function of schema and document text: both equal"})
+					break
+				}
+			}
 		}
 	}
 	// FIRST-USE race: the verdict is a function of schema and document, not of which goroutine happens to use a fresh
@@ -906,8 +1189,12 @@ func Run(args []string) {
 			}
 		}
 	}
-	// WIDE stream
-	for _, wc := range wideCases(r) {
+	// WIDE stream, KEY-NAME stream
+	for _, wc := range append(wideCases(r), keyCases(r)...) {
+		stream := "wide"
+		if wc.stream != "" {
+			stream = wc.stream
+		}
 		var sb strings.Builder
 		print(&sb, wc.n, 0, "", "", r)
 		text := sb.String()
@@ -930,25 +1217,24 @@ func Run(args []string) {
 		schemaSx := sx(wc.n, wc.optDefault)
 		for _, d := range wc.docs {
 			dt, dsx := render(d, r)
-			verdict := vh.Recover(func() string {
-				if err := s.Validate(jdoc.New("d", dt)); err != nil {
-					return "000"
-				}
-				return "111"
-			})
-			rep.Stat("wide_cases")
+			u := genUsage(r)
+			verdict, _ := u.validate(s, dt, rep)
+			rep.Stat(stream + "_cases")
 			if verdict == "111" {
-				rep.Stat("wide_accepted")
+				rep.Stat(stream + "_accepted")
 			} else {
-				rep.Stat("wide_rejected")
+				rep.Stat(stream + "_rejected")
 			}
 			reqs = append(reqs, "semn val "+schemaSx+" "+dsx)
 			impl = append(impl, verdict)
-			in := fmt.Sprintf("schema=%q optDefault=%v document=%q", text, wc.optDefault, dt)
+			in := fmt.Sprintf("schema=%q optDefault=%v document=%q%s", text, wc.optDefault, dt, u.describe())
 			inputs = append(inputs, in)
 			rep.Case(schemaSx+" "+dsx, true)
 		}
 	}
 	rep.Compare(reqs, impl, inputs, 16)
+	for _, d := range late {
+		rep.AddDiff(d)
+	}
 	rep.Finish()
 }
